@@ -102,8 +102,10 @@ def novel_products(cmd, rng, cap=S.CAP, limit=6000):
     for name, (kind, width, d) in cmd.args.items():
         if kind in ("u", "alloc", "tl", "cdtl"):
             vals = srcdict.novel_exact(width) if width > 8 else [v for v in nv if 0 <= v < (1 << width)]
+            # ... and their neighbours (the inside of `512 < n < 572` begins at 513 and ends at 571)
+            vals = sorted({w for v in vals for w in (v - 1, v, v + 1) if 0 <= w < (1 << width)})
             if vals:
-                per[name] = vals if len(vals) <= 8 else rng.sample(vals, 8)
+                per[name] = vals if len(vals) <= 12 else rng.sample(vals, 12)
     names = sorted(per)
     combos = []
     for k in (1, 2, 3):
